@@ -17,7 +17,7 @@ package sys
 //@   requires[C11.ensurestorage_needs_sys_lock] heldW(sys.Mutex)
 
 // ---- C17: the location cache ---------------------------------------------------------------
-//@ ghost checked string
+//@ ghost checkedLoc ref
 //@ ghost lastCachePending bool
 //@ func (*System).SetControl
 //@   ghost-ensures lastCachePending == control.CachePending
@@ -26,8 +26,8 @@ package sys
 //@   ensures[C17.newsystem_forces_cachepending] result1 == nil ==> lastCachePending
 // Opening a location (loading its state, installing hooks) is assumed not to touch the location cache itself.
 //@ func (*System).OpenLocation
-//@   ghost-ensures checkExists && result1 == nil ==> checked == name
-//@   also-modifies checked
+//@   ghost-ensures checkExists && result1 == nil ==> checkedLoc == result0
+//@   also-modifies checkedLoc
 //@   modifies allbut(F:sys.CachedLocation.|F:sys.CachedLocations.|MD:string:*sys.CachedLocation|MV:string:*sys.CachedLocation|ML:string:*sys.CachedLocation)
 
 //@ func (*CachedLocations).expire
@@ -38,8 +38,13 @@ package sys
 //@   ensures[C17.get_loads_once]      old(cl.Location) != nil ==> result0 == old(cl.Location) && result1 == nil
 //@   ensures[C17.get_failed_open_not_cached] old(cl.Location) == nil && result1 != nil ==> cl.Location == nil
 //@   ensures[C17.get_caches_loaded]   old(cl.Location) == nil && result1 == nil ==> cl.Location == result0
+//@   ensures[C17.get_checks_what_it_loads] checkExists && old(cl.Location) == nil && result1 == nil ==> checkedLoc == result0
 //@ func (*CachedLocations).Open
-//@   ensures[C17.open_existence_checked] check && result1 == nil ==> checked == name
+//@   ensures[C17.open_existence_checked] check && result1 == nil ==> checkedLoc == result0
+// the existence test itself (reads the 'created' marker of the instance it is given)
+//@ func locationCreated
+//@   ghost-ensures result1 == nil && result0 ==> checkedLoc == loc
+//@   also-modifies checkedLoc
 
 // ---- C15: hooks are installed before the location's state is loaded -------------------------------
 //@ func (*System).newLocation
